@@ -35,7 +35,9 @@ ASSUMPTIONS = ["the type mapping of serpent / marshal / json / msgpack / struct 
                "no custom class<->dict converters are registered (SerializerBase registries empty), SERPENT_BYTES_REPR=False"]
 TRUSTED = ["props/c01_vals.py: Python value <-> token encoding and the canonicaliser (sets and dict items sorted, NaN -> one token)",
            "props/c01_e2e.py: in-memory duplex socket standing for a connected socket pair",
-           "props/c01_hist.py: the pristine helper process (imports Pyro5, forks one child per reference conversion)"]
+           "props/c01_hist.py: the pristine helper process (imports Pyro5, forks one child per reference conversion)",
+           "props/c01_extract.py: facts are probed on the imported module (tables of real calls), not read from the source text",
+           "props/c01_conc.py: event-gated interleaving of two threads inside a default()/__getstate__ callback"]
 
 SERS = ["serpent", "marshal", "json", "msgpack"]
 
